@@ -2,7 +2,7 @@
    Only ExtrOcamlBasic is used: nat, Z stay the extracted inductive types. *)
 From Coq Require Import List ZArith Extraction ExtrOcamlBasic.
 From LMBase Require Import Res ListX.
-From LMDense Require Import DenseModel DenseProofs DenseReg DenseCheck DenseSteps.
+From LMDense Require Import DenseModel DenseProofs DenseReg DenseSteps DenseCheck DenseF32.
 
 Definition z_t_run := @t_run Z 0%Z.
 Definition z_s_run := @s_run_pads Z 0%Z.
@@ -19,12 +19,18 @@ Definition z_rt_step := @rt_step Z 0%Z.
 Definition z_rs_step := @rs_step Z 0%Z.
 Definition z_mabs := @mabs Z.
 Definition z_new0 (C S : nat) (pad : nat -> Z) : @smat Z := m_resize 0%Z C S pad (m_empty 0) 0.
-Definition z_check_C19 (C S : nat) (pat : list bool) := @check_C19 Z 0%Z C S Z.eqb pat.
-Definition z_check_robs (S : nat) := @check_robs Z S Z.eqb.
-Definition z_check_mobs (S : nat) := @check_mobs Z S Z.eqb.
-Definition z_check_fobs (C : nat) (pat : list bool) := @check_fobs Z C Z.eqb pat.
-Definition z_first_bad (C S : nat) := @first_bad Z 0%Z C S Z.eqb.
-Definition z_m_observe (S : nat) := @m_observe Z S Z.eqb.
+(* the element == of the instance: identity for u8/u32/i64, f32c_eqb (DenseF32.v) for f32 codes *)
+Definition z_eqR (f32 : bool) : Z -> Z -> bool := if f32 then f32c_eqb else Z.eqb.
+Definition z_check_C19 (f32 : bool) (C S size align : nat) (pat : list bool) (steps : list istep) :=
+  @check_C19 Z 0%Z C S size align Z.eqb (z_eqR f32) pat steps.
+Definition z_check_robs (f32 : bool) (S size align : nat) := @check_robs Z S size align Z.eqb (z_eqR f32).
+Definition z_check_mobs (S size align : nat) := @check_mobs Z S size align Z.eqb.
+Definition z_check_fobs (f32 : bool) (C : nat) (pat : list bool) (steps : list istep) :=
+  @check_fobs Z C Z.eqb (z_eqR f32) pat steps.
+Definition z_check_steps (steps : list istep) := @check_steps Z Z.eqb steps.
+Definition z_treqb (f32 : bool) := @treqb Z (z_eqR f32).
+Definition z_first_bad (f32 : bool) (C S size align : nat) := @first_bad Z 0%Z C S size align Z.eqb (z_eqR f32).
+Definition z_m_observe (f32 : bool) (C S size align : nat) := @m_observe Z C S size align Z.eqb (z_eqR f32).
 Definition z_take_mixed_o := @take_mixed_o Z.
 Definition z_take_steps := @take_steps Z.
 
@@ -32,4 +38,4 @@ Extraction Language OCaml.
 Extraction "dense_model.ml" z_t_run z_s_run z_abs z_ravel z_s_eqb z_s_fill z_s_set z_s_clone z_take_mixed
   stride row_bytes row_addr
   z_rt_step z_rs_step z_mabs z_new0 z_check_C19 z_check_robs z_check_mobs z_check_fobs z_first_bad
-  z_m_observe z_take_mixed_o mixed_lens z_take_steps steps_lens.
+  z_m_observe z_take_mixed_o mixed_lens z_take_steps steps_lens z_check_steps z_treqb steps_k z_eqR.
